@@ -4,7 +4,7 @@
     records, which are numbered ([tMd = Z]: record j is the one precomputed for step j) so that the
     model says which record lands in which flushed chunk. *)
 From Coq Require Import List ZArith Bool.
-From Inovesa Require Import Model.Driver Gen.Gen_MainLoop.
+From Inovesa Require Import Model.Driver Model.Setup Gen.Gen_MainLoop.
 Import ListNotations.
 Local Open Scope Z_scope.
 
@@ -47,3 +47,25 @@ Definition model_run (c : cfg) (at_ : Z) (rep : bool) (pc0 : Z) : outcome :=
   let s := run (hooksig at_ rep) c main_prog (st0 c at_ pc0) in
   mkout (trace s) (List.map summary (file s)) (log s) (status s) (k s) (abort s) (pc s)
         (rf_chunks (file s)) (past s).
+
+(** the whole program, set-up included (Model/Setup.v): the opaque statements do nothing and never
+    in this instance; [tl] lists the opaque conditions that are true, [xl] the opaque statements /
+    conditions that throw.  The point counter
+    starts at 0 when the SIGINT handler is installed; the flag is clear. *)
+Definition uenv (tl xl : list Z) : senv unitK :=
+  mksenv (fun _ s => s) (fun n => existsb (Z.eqb n) xl) (fun n => existsb (Z.eqb n) tl).
+
+Definition st_init (c : cfg) : st unitK :=
+  mkst (K:=unitK) 0 0 tt tt tt tt tt tt tt tt tt tt tt tt (List.map Z.of_nat (seq 0 (Z.to_nat (laststep c)))) [] tt tt
+       false 0 [] [] None [] [] false.
+
+Definition out_of (s : st unitK) : outcome :=
+  mkout (trace s) (List.map summary (file s)) (log s) (status s) (k s) (abort s) (pc s) (rf_chunks (file s)) (past s).
+
+(** (how the program ended: 0 ran to the end of main, 1 returned from the set-up, 2 uncaught exception; outcome) *)
+Definition model_run_full (c : cfg) (at_ : Z) (rep : bool) (tl xl : list Z) : Z * outcome :=
+  match full_run (hooksig at_ rep) (uenv tl xl) c main_setup main_prog (st_init c) with
+  | Finished s => (0, out_of s)
+  | Early s => (1, out_of s)
+  | Crashed s => (2, out_of s)
+  end.
